@@ -4,6 +4,7 @@ import Driver.LRStage
 import Driver.WFStage
 import Driver.SemStage
 import Driver.ShapeStage
+import Driver.SitesStage
 
 open Theo.Drv
 
@@ -21,6 +22,7 @@ def handle (line : String) : String :=
   | "WF" :: rest => handleWF rest
   | "SEM" :: rest => handleSem rest
   | "SHAPE" :: rest => handleShape rest
+  | "SITES" :: rest => handleSites rest
   | _ => "BADREQ"
 
 partial def loop (h : IO.FS.Stream) (out : IO.FS.Stream) : IO Unit := do
